@@ -26,7 +26,10 @@ Container == {"magic", "truncated", "nkeys0", "nkeys2", "kdfUnknown", "cipherUnk
               "outerPubOther", "outerPubGarbage", "trailing"}
 InnerAny  == {"check", "keytypeUnknown", "padWrongByte", "padOrder", "padLong", "commentChanged"}
 InnerRSA  == {"nMismatch", "dMismatch", "eMismatch", "iqmpWrong", "pqSwapped"}
-InnerEC   == {"pointMismatch", "dOutOfRange"}
+InnerEC   == {"pointMismatch", "dOutOfRange",
+              "pointNegated",       \* the public point replaced by its negation (X, p-Y) in the envelope AND the private section: same X
+              "pointNegatedInner",  \* ... in the private section only
+              "pointShareY"}        \* ... by another curve point with the same Y (both copies), where one exists
 InnerEd   == {"pubFieldOther", "seedMismatch", "privPubHalfOther", "privShort"}
 AllCorr   == {"none"} \cup Container \cup InnerAny \cup InnerRSA \cup InnerEC \cup InnerEd
 Applies(corr, kt) == /\ (corr \in InnerRSA => kt = "rsa")
@@ -66,7 +69,8 @@ DecryptD(x) ==      \* "ok" or a result
 TypeD(x) ==
   IF x.corr = "keytypeUnknown" \/ x.kt \notin Handled THEN "err"
   ELSE IF x.corr \in {"padWrongByte", "padOrder", "privShort"} THEN "err"
-  ELSE IF x.corr \in {"nMismatch", "dMismatch", "eMismatch", "pointMismatch", "dOutOfRange"} THEN "err"
+  ELSE IF x.corr \in {"nMismatch", "dMismatch", "eMismatch", "pointMismatch", "dOutOfRange",
+                      "pointNegated", "pointNegatedInner", "pointShareY"} THEN "err"     \* the point must equal D*G in both coordinates
   ELSE IF FixConsistency /\ x.corr \in {"pubFieldOther", "seedMismatch", "privPubHalfOther"} THEN "err"   \* Ed25519: seed, public half and public field agree
   ELSE IF FixConsistency /\ x.corr \in {"outerPubOther", "outerPubGarbage"} THEN "err"                   \* the envelope's public key is the key's public key
   ELSE "key"          \* (FixConsistency = FALSE: nothing else was looked at)
